@@ -50,7 +50,7 @@ _QUICK_FLOORS = {
     "op.swap": 70000, "op.swap_z1": 15000, "op.insert": 15000, "op.insert.idorder_unsorted": 6000,
     "op.remove_last": 10000, "op.remove_last.right_after_swap": 5000, "op.remove_last.last_not_max_id": 3000,
     "op.remove_maximal.not_last": 10000, "op.fork": 8000,
-    "cmp.barcode": 150000, "cmp.derived_barcode": 200000, "cmp.ru.factorisation": 60000, "cmp.chain.column": 1500000,
+    "cmp.barcode": 150000, "cmp.derived_barcode": 200000, "cmp.ru.factorisation": 40000, "cmp.chain.column": 1500000,
     "cmp.swap_return": 100000, "cmp_calls.birth": 4000, "cmp_calls.death": 700,
     # state classes of the transpositions (sign of the two cells, same dimension, pairing, U / chain entry present,
     # outcome according to the oracle), per flavour
